@@ -131,21 +131,21 @@ GROUPS["text_t0"] = dict(_MODEL, **{
         + _types("digits_simple_%s", ["i32", "u32", "i64", "u64", "isize", "usize", "i128", "u128"], props=["C13", "C06"], cost=4, tiers=T, what="ascii_digits vs reference")
         + _types("signed_simple_%s", ["i8", "u8", "i16", "u16"], props=["C13", "C06", "C05"], cost=5, what="signed_ascii_digits vs reference (lone minus, exact overflow)")
         + _types("signed_simple_%s", ["i32", "u32", "i64", "u64", "isize", "usize", "i128", "u128"], props=["C13", "C06"], cost=5, tiers=T, what="signed_ascii_digits vs reference")
-        + _types("multi_eq_%s", ["u8", "i32", "usize"], props=["C13", "C01", "C09"], cost=6, what="ascii_digits_multi == ascii_digits for all contents, offsets, buffered amounts, schedules")
+        + _types("multi_eq_%s", ["u8", "i32", "usize"], props=["C13", "C01", "C09", "C06"], cost=6, what="ascii_digits_multi == ascii_digits for all contents, offsets, buffered amounts, schedules")
         + _types("multi_eq_%s", ["i8", "i16", "u16", "u32", "i64", "u64", "isize", "i128", "u128"], props=["C13", "C01"], cost=6, tiers=T, what="ascii_digits_multi == ascii_digits")
-        + _types("smulti_eq_%s", ["i8", "u8", "i16"], props=["C13", "C01", "C09"], cost=7, what="signed_ascii_digits_multi == signed_ascii_digits")
+        + _types("smulti_eq_%s", ["i8", "u8", "i16"], props=["C13", "C01", "C09", "C06"], cost=7, what="signed_ascii_digits_multi == signed_ascii_digits")
         + _types("smulti_eq_%s", ["i32", "isize", "u16", "u32", "i64", "u64", "usize", "i128", "u128"], props=["C13", "C01"], cost=9, tiers=T, what="signed_ascii_digits_multi == signed_ascii_digits")
-        + _types("cont_pos_%s", ["i8", "i64", "u64"], props=["C13"], cost=3, what="ascii_digits_cont_pos from an arbitrary accumulated value: exact at the overflow boundary")
-        + _types("cont_neg_%s", ["i8", "i64", "isize"], props=["C13"], cost=3, what="ascii_digits_cont_neg from an arbitrary accumulated value")
+        + _types("cont_pos_%s", ["i8", "i64", "u64"], props=["C13", "C06"], cost=3, what="ascii_digits_cont_pos from an arbitrary accumulated value: exact at the overflow boundary")
+        + _types("cont_neg_%s", ["i8", "i64", "isize"], props=["C13", "C06"], cost=3, what="ascii_digits_cont_neg from an arbitrary accumulated value")
         + _types("cont_pos_%s", ["u8", "i16", "u16", "i32", "u32", "isize", "usize", "i128", "u128"], props=["C13"], cost=3, tiers=T, what="ascii_digits_cont_pos full width")
         + _types("cont_neg_%s", ["u8", "i16", "u16", "i32", "u32", "u64", "usize", "i128", "u128"], props=["C13"], cost=3, tiers=T, what="ascii_digits_cont_neg full width")
         + [
             ("raw_load_in_bounds_unsigned", {"props": ["C14"], "cost": 3, "what": "8-byte load of ascii_digits_multi stays inside the buffered data (window fills the array)"}),
             ("raw_load_in_bounds_signed", {"props": ["C14"], "cost": 3, "what": "8-byte load of signed_ascii_digits_multi stays inside the buffered data"}),
-            ("helper_tabs_or_spaces", {"props": ["C16", "C07"], "cost": 3, "what": "tabs_or_spaces: maximal run, no consumption, look-ahead bound"}),
-            ("helper_newline", {"props": ["C16", "C07"], "cost": 2, "what": "newline: LF / CRLF / lone CR / CR at end"}),
-            ("helper_next_newline", {"props": ["C16"], "cost": 3, "what": "next_newline: just past next LF or end of input"}),
-            ("helper_fixed", {"props": ["C16"], "cost": 3, "what": "fixed(pattern of 0..4 symbolic bytes): all-or-nothing, stops at first mismatch"}),
+            ("helper_tabs_or_spaces", {"props": ["C16", "C01", "C07"], "cost": 3, "what": "tabs_or_spaces: maximal run, no consumption, look-ahead bound"}),
+            ("helper_newline", {"props": ["C16", "C01", "C07"], "cost": 2, "what": "newline: LF / CRLF / lone CR / CR at end"}),
+            ("helper_next_newline", {"props": ["C16", "C01"], "cost": 3, "what": "next_newline: just past next LF or end of input"}),
+            ("helper_fixed", {"props": ["C16", "C01"], "cost": 3, "what": "fixed(pattern of 0..4 symbolic bytes): all-or-nothing, stops at first mismatch"}),
             ("line_reader_give_up", {"props": ["C04", "C08", "C05"], "cost": 2, "what": "give_up/give_up_at: parked I/O error wins; line/column arithmetic"}),
             ("line_reader_new_and_line_at_offset", {"props": ["C08"], "cost": 1, "what": "LineReader::new / line_at_offset"}),
             ("reach_text", {"props": ["C13", "C16", "C01"], "kind": "reach", "cost": 3, "what": "vacuity twin"}),
@@ -462,6 +462,20 @@ def _cnf_family_t2(kind):
         ],
     })
     return g
+
+GROUPS["solver_log_t2"] = dict(GROUPS["cnf_parser_t2"], **{
+    "name": "solver_log_t2",
+    "prefix": "sat_solver_log::verif_log::",
+    "overlay": [("flussab-cnf/src/token.rs", "stub", "harness/cnf/token_stub.rs"),
+                ("flussab-cnf/src/sat_solver_log.rs", "log", "harness/cnf/solver_log_t2.rs")],
+    "inject": _stub_injects("flussab-cnf/src/token.rs", _CNF_TOKEN_SPECS),
+    "flags": ["--default-unwind", "8"],
+    "rss_gb": 20,
+    "harnesses": [
+        ("parse_log_i8", {"props": ["C06", "C04", "C05", "C07"], "cost": 8, "what": "parse_log dispatcher: complete only at the clean end of a healthy source, assignment literals non-zero and in range, terminating 0 required"}),
+        ("reach_parse_log", {"kind": "reach", "tiers": T, "cost": 8, "what": "vacuity twin"}),
+    ],
+})
 
 GROUPS["wcnf_parser_t2"] = _cnf_family_t2("wcnf")
 GROUPS["gcnf_parser_t2"] = _cnf_family_t2("gcnf")
